@@ -9,6 +9,7 @@ from fractions import Fraction
 
 from .. import core
 from .. import translate_vocab as TV
+from .. import translate_moddb as TM
 
 PID = 'C10'
 DRV = 'drv_c10'
@@ -19,10 +20,16 @@ REGISTRY = {
             'element table): prefix stripping returns the key for every key and every documented prefix in any letter case; '
             'table facts by kernel evaluation (unique ids/names, no numeric/reserved/decorated names, cross-vocabulary name '
             'collisions agree, tabulated mono mass = mass of tabulated composition); spelling invariance of the resolver model '
-            'derived from them; generic-form lemmas (tags, alternatives, multiplier). The hand-written resolver model is tied to '
+            'derived from them; generic-form lemmas (tags, alternatives, multiplier). The prefix predicates and strippers of '
+            'mods/mod_db.py (is_unimod_str, is_psi_mod_str, is_xlmod_str, is_resid_str, is_gno_str, _strip_unimod_str, _strip_psi_str, '
+            '_strip_xlmod_str, _strip_resid_str, _strip_gno_str) and the if-chains of _parse_mod_mass / _parse_mod_comp are translated '
+            'mechanically from the current source (Python ast, tiny subset) into Lean on every run and proved EQUAL to the hand model '
+            '(Props/C10Gen.lean), so the theorems hold of the translated source; a function outside the subset is reported as '
+            'untranslated and stays tied by correspondence. The rest of the hand-written resolver model is tied to '
             '/repo by exhaustive correspondence (every entry x every spelling x {mono, avg, composition}) and the property itself '
             'is evaluated on the real mod_mass / mod_comp over the same enumeration',
-    'note': 'trusted: Lean kernel, axioms propext/Classical.choice/Quot.sound, translate_vocab.py (table-to-text), the '
+    'note': 'trusted: Lean kernel, axioms propext/Classical.choice/Quot.sound, translate_vocab.py (table-to-text), '
+            'translate_moddb.py (subset reader: lower/startswith/or/and/not/in/split(":"[,1])[1]/slicing/contains_id/contains_name/if-return), the '
             'correspondence harness, the OBO readers of the library (compared with an independent raw read of id/name/mass); '
             'ASCII only for prefix case folding; precision=None',
     'technique': 'Lean 4 proof about executable model + generated tables + exhaustive differential correspondence',
@@ -292,11 +299,28 @@ def _run(chk):
             print(f'[timing] {what}: {time.time() - _t[0]:.1f}s', file=sys.stderr)
         _t[0] = time.time()
     TV.translate_into(chk)  # never raises: a failed dump is a reported item, the previous tables stay
+    tm_report = TM.translate_into(chk)  # mod_db.py -> Generated/ModDbPy.lean + Props/C10Gen.lean (never raises)
+    if tm_report is not None:
+        chk.notes.append('translate_moddb: translated ' + ', '.join(tm_report['translated']) +
+                         ('; UNTRANSLATED (outside the subset, tied by correspondence only): ' +
+                          '; '.join(f'{k}: {v}' for k, v in tm_report['untranslated'].items()) if tm_report['untranslated'] else '') +
+                         ('; no hand counterpart: ' + ', '.join(tm_report['no_hand_counterpart']) if tm_report['no_hand_counterpart'] else ''))
+        chk.count('moddb_functions_translated', len(tm_report['translated']))
+        chk.count('moddb_functions_untranslated', len(tm_report['untranslated']))
     PROPS = ['PeptVerif.Props.C10', 'PeptVerif.Props.C10TabU', 'PeptVerif.Props.C10TabP', 'PeptVerif.Props.C10TabX',
              'PeptVerif.Props.C10Mass', 'PeptVerif.Props.C10Generic', 'PeptVerif.Props.C10Glycan'] + (
                  ['PeptVerif.Props.C10Resolve'] if os.path.exists(os.path.join(core.LEAN, 'PeptVerif', 'Props', 'C10Resolve.lean'))
                  else [])
     chk.lean_build(PROPS, DRV)
+    # the equalities "definition translated from the source = hand model" are built separately: if the fixed proof script no
+    # longer closes one of them (the source was edited), the verdict is left to the correspondence and the oracle (see below)
+    n_before = len(chk.lean_problems)
+    try:
+        chk.lean_build(['PeptVerif.Props.C10Gen'])
+    except core.InfraError:
+        raise
+    gen_problems = chk.lean_problems[n_before:]
+    del chk.lean_problems[n_before:]
     if chk.lean_problems:
         # a table theorem no longer checks: evaluate the same boolean checks entry by entry to name the witnesses
         for what, kinds in (('unclean', ('unimod', 'psi', 'xlmod')), ('numeric', ('unimod', 'psi')),
@@ -310,6 +334,9 @@ def _run(chk):
                     chk.notes.append(f'table check {what} fails for {kind} entries (id,name): ' +
                                      '; '.join(dec(x) for x in r.split(';')))
     chk.trusted += [
+        'translate_moddb.py: the Python-subset reader that turns mod_db.py (is_*_str, _strip_*_str) and the dispatch chains of '
+        '_parse_mod_mass/_parse_mod_comp into Lean definitions over the hand model\'s combinators; its output is compared with the '
+        'Python functions on every run (generated_pred_vs_python, generated_strip_vs_python)',
         'translate_vocab.py: EntryDb objects (id, name, synonyms, mono, avg, composition) and the element tables as loaded by '
         'the library -> Lean literals (code-point lists, exact decimals of repr(float)); rewritten when /repo changes',
         'modelled: mod_db.py (is_*_str, _strip_*_str, _get_mass, _get_comp), mass_calc.mod_mass/_parse_mod_mass and helpers, '
@@ -451,6 +478,35 @@ def _run(chk):
             return 'ERR:' + type(e).__name__
     chk.correspond('parse_db_comp', DRV, fam_cases, lambda c: f'getcomp\t{c[0]}\t{enc(c[1])}', getcomp_impl, nontrivial_fn=ok)
 
+    # generated definitions (translated from the source) against the Python functions and against the hand model
+    gen_names = {'unimod': ('is_unimod_str', '_strip_unimod_str'), 'psi': ('is_psi_mod_str', '_strip_psi_str'),
+                 'xlmod': ('is_xlmod_str', '_strip_xlmod_str'), 'resid': ('is_resid_str', '_strip_resid_str'),
+                 'gno': ('is_gno_str', '_strip_gno_str')}
+    translated = set(tm_report['translated']) if tm_report else set()
+    gcs = [c for c in fam_cases if c[0] in gen_names]
+    gen_pred_cases = [c for c in gcs if gen_names[c[0]][0] in translated]
+    gen_strip_cases = [c for c in gcs if gen_names[c[0]][1] in translated]
+    chk.correspond('generated_pred_vs_python', DRV, gen_pred_cases, lambda c: f'gen\tpred\t{gen_names[c[0]][0]}\t{enc(c[1])}',
+                   lambda c: str(bool(getattr(MD, gen_names[c[0]][0])(c[1]))), nontrivial_fn=lambda c, im: im == 'True')
+    chk.correspond('generated_strip_vs_python', DRV, gen_strip_cases, lambda c: f'gen\tstrip\t{gen_names[c[0]][1]}\t{enc(c[1])}',
+                   lambda c: enc(getattr(MD, gen_names[c[0]][1])(c[1])), nontrivial_fn=lambda c, im: im != enc(c[1]))
+    gen_vs_hand_bad = []
+    if gen_problems:
+        # extensional comparison generated definition vs hand model (both in the driver) on everything enumerated here
+        probe = [c[2] for c in sp_cases[::7]] + [c[1] for c in fam_cases]
+        for kind, (pn, sn) in gen_names.items():
+            for fname, op in ((pn, 'is'), (sn, 'strip')):
+                if fname not in translated:
+                    continue
+                a = chk.driver(DRV, [f'gen\t{"pred" if op == "is" else "strip"}\t{fname}\t{enc(t)}' for t in probe])
+                b = chk.driver(DRV, [f'{op}\t{kind}\t{enc(t)}' for t in probe])
+                gen_vs_hand_bad += [(fname, t, x, y) for t, x, y in zip(probe, a, b) if x != y][:3]
+        for bn in ('massBranch', 'compBranch'):
+            a = chk.driver(DRV, [f'gen\tbranch\t{bn}\t{enc(t)}' for t in probe])
+            b = chk.driver(DRV, [f'hand\tbranch\t{bn}\t{enc(t)}' for t in probe])
+            if a and a[0] != 'untranslated':
+                gen_vs_hand_bad += [(bn, t, x, y) for t, x, y in zip(probe, a, b) if x != y][:3]
+        chk.count('generated_vs_hand_probes', len(probe))
     lap('families')
     # ------------------------------------------------------------ (2) random generic forms and decorations
     iso_keys = list(K.ISOTOPIC_ATOMIC_MASSES.keys())
@@ -865,10 +921,22 @@ def _run(chk):
         chk.notes.append('reach: lines of the modelled functions not executed by this run: ' +
                          (json.dumps(rep['uncovered']) if rep['uncovered'] else 'none'))
     if tier == 'thorough':
-        chk.leanchecker(PROPS + ['PeptVerif.Lemmas.ModDbLemmas', 'PeptVerif.Lemmas.ModDbSpelling', 'PeptVerif.Lemmas.KSortC10',
+        chk.leanchecker(PROPS + ['PeptVerif.Props.C10Gen', 'PeptVerif.Generated.ModDbPy', 'PeptVerif.Lemmas.ModDbBranch', 'PeptVerif.Model.ModDbBranch', 'PeptVerif.Lemmas.ModDbLemmas', 'PeptVerif.Lemmas.ModDbSpelling', 'PeptVerif.Lemmas.KSortC10',
                                  'PeptVerif.Lemmas.ModDbGeneric', 'PeptVerif.Model.ModDb', 'PeptVerif.Model.Formula',
                                  'PeptVerif.Model.ModDbFacts'])
         lap('leanchecker')
+    if gen_problems:
+        confirmed = not gen_vs_hand_bad and not chk.disagreements and not [f for f in chk.failures if not classify(f)]
+        if confirmed:
+            chk.notes.append('Props/C10Gen: the fixed proof script no longer proves ' + '; '.join(p[:160] for p in gen_problems[:4]) +
+                             ' — the source was edited inside the subset; the generated and the hand definitions agree on every '
+                             'probe, all correspondences and oracles pass: treated as a refactoring (not a violation); the '
+                             'equality theorems are undischarged in this run')
+        else:
+            chk.lean_problems += gen_problems
+            for fname, t, x, y in gen_vs_hand_bad[:5]:
+                chk.disagreements.append({'op': 'generated_vs_hand_model', 'line': f'{fname}\t{enc(t)}', 'impl': f'translated source: {x}',
+                                          'model': f'hand model: {y}'})
     if chk.generated_changed:
         TV.restore_after_scratch_run()
     return chk.finish(classify)
